@@ -150,6 +150,32 @@ func (r *ref) step(f []string, op, o string) fw.Verdict {
 		for k := range r.files { // a compaction re-blocks the key; the layout facts are void
 			r.files[k], r.written[k] = 1, 0
 		}
+	case "bk":
+		lo, hi := int64(-1<<63), int64(1<<63-1)
+		if p := strings.Split(f[1], ":"); p[0] == "export" {
+			lo, hi = i64(p[1]), i64(p[2])
+		}
+		var parts []string
+		for _, sr := range strings.Split(f[2], ";") {
+			for _, fn := range strings.Split(f[3], ",") {
+				var tvs []shardh.TV
+				for t, v := range r.data[sr+"/"+fn] {
+					if t >= lo && t <= hi {
+						tvs = append(tvs, shardh.TV{T: t, V: v})
+					}
+				}
+				sort.Slice(tvs, func(i, j int) bool { return tvs[i].T < tvs[j].T })
+				x := strings.Fields(shardh.Render(tvs))
+				parts = append(parts, x[0]+":"+x[1])
+			}
+		}
+		if want := strings.Join(parts, " "); o != want {
+			sig := "restored shard reads differently from the source"
+			if strings.HasPrefix(o, "err:") {
+				sig = "backup or restore fails: " + strings.SplitN(o, ":", 3)[1]
+			}
+			return fw.Verdict{OK: false, Why: fmt.Sprintf("%.200s\n  restored shard: %.400s\n  source at backup time: %.400s", op, o, want), Signature: sig}
+		}
 	case "crashat":
 		// crashat <point> <op...>: layout ops are the identity; an interrupted delete is
 		// completed after the restart
